@@ -15,12 +15,88 @@ import PolyVerif.Lemmas.Solids
 import PolyVerif.Lemmas.SolidsGeom
 import PolyVerif.Lemmas.SolidsMerge
 import PolyVerif.Lemmas.SolidsCode
+import PolyVerif.Lemmas.SolidsLoops
+import PolyVerif.Lemmas.SolidsTopo
 import PolyVerif.Gen.CubeTable
 import Mathlib.Tactic
 
 namespace PolyVerif
 namespace C18
 open Solids
+
+/-! ## The model's index lists ARE what the source's loops compute (regenerated on every run)
+
+`Gen/PrimLoops.lean` is extracted from the Go source by `go/facts c18.loops` before every build: per constructor the loop
+nest, the loop bounds, the integer assignments and the `append`s, as a program of `Model/LoopIR.lean`.  The theorems
+below say that running that program gives exactly `Model/Solids.lean`'s index list and vertex count, for ALL parameter
+values — so an edit of a bound or an index expression in sphere.go / hemisphere.go / circle.go / cylinder.go breaks a
+named theorem at build time, before any sample is run. -/
+
+open PolyVerif.LoopIR in
+/-- `UVSphere` (sphere.go): index buffer and vertex count of the extracted loops = the model, ∀ rows, cols -/
+theorem uvSphere_indices_from_source (rows cols : Nat) :
+    Gen.PrimLoops.uvSphere.indices [rows, cols] = flat (uvSphereTris rows cols) ∧
+    Gen.PrimLoops.uvSphere.nverts [rows, cols] = uvSphereNV rows cols :=
+  uvSphere_run rows cols
+
+open PolyVerif.LoopIR in
+/-- `Hemisphere.UV` (hemisphere.go): extracted loops = the model, ∀ rows, cols -/
+theorem hemisphere_indices_from_source (rows cols : Nat) :
+    Gen.PrimLoops.hemisphere.indices [rows, cols] = flat (hemisphereTris rows cols) ∧
+    Gen.PrimLoops.hemisphere.nverts [rows, cols] = uvSphereNV rows cols :=
+  hemisphere_run rows cols
+
+open PolyVerif.LoopIR in
+/-- `Circle.ToMesh` (circle.go): extracted loop + final triangle = the model, ∀ sides -/
+theorem circle_indices_from_source (sides : Nat) :
+    Gen.PrimLoops.circle.indices [sides] = flat (circleTris sides) ∧
+    Gen.PrimLoops.circle.nverts [sides] = circleNV sides :=
+  circle_run sides
+
+open PolyVerif.LoopIR in
+/-- `Cylinder.ToMesh` (cylinder.go), the side strip before the caps are appended: extracted loop = the model, ∀ sides -/
+theorem cylinderSide_indices_from_source (sides : Nat) :
+    Gen.PrimLoops.cylinder.indices [sides] = flat (cylinderSideTris sides) ∧
+    Gen.PrimLoops.cylinder.nverts [sides] = cylinderSideNV sides :=
+  cylinderSide_run sides
+
+open PolyVerif.LoopIR in
+/-- `UVSphereUnwelded` (sphere.go): index buffer and vertex count of the extracted loops (which read the running
+    `len(finalVerts)`) = the model, ∀ rows, cols -/
+theorem uvSphereUnwelded_indices_from_source (rows cols : Nat) :
+    Gen.PrimLoops.uvSphereUnwelded.indices [rows, cols] = flat (uvSphereUnweldedTris rows cols) ∧
+    Gen.PrimLoops.uvSphereUnwelded.nverts [rows, cols] = uvUnweldedNV rows cols :=
+  unwelded_run rows cols
+
+open PolyVerif.LoopIR in
+/-- **the unwelded sphere's copy map is what the source computes**: the extracted `finalVerts` slice holds, for every
+    final vertex `v`, the index into `calculatedPositions` it was copied from, and that index is `uvUnweldedSrc v`
+    (∀ rows, cols).  So `uvUnweldedPos v = uvSpherePos (uvUnweldedSrc v)` and the merge map of
+    `uvSphereUnwelded_closed_mod_merge` / `_merge_exact` are derived from sphere.go, not assumed. -/
+theorem uvSphereUnwelded_copy_map_from_source (rows cols : Nat) :
+    Gen.PrimLoops.uvSphereUnwelded.run [rows, cols] Gen.PrimLoops.uvSphereUnwelded.verts =
+      (List.range (uvUnweldedNV rows cols)).map (uvUnweldedSrc rows cols) :=
+  unwelded_verts_run rows cols
+
+/-- the panics: the extracted guards of `UVSphere`, `Hemisphere.UV`, `Circle.ToMesh` are the model's admissibility -/
+theorem guards_from_source (rows cols sides : Nat) :
+    Gen.PrimLoops.uvSphere.admits [rows, cols] = uvAdmissible rows cols ∧
+    Gen.PrimLoops.hemisphere.admits [rows, cols] = uvAdmissible rows cols ∧
+    Gen.PrimLoops.circle.admits [sides] = decide (3 ≤ sides) ∧ Gen.PrimLoops.cylinder.guards = [] :=
+  ⟨uvSphere_admits rows cols, hemisphere_admits rows cols, circle_admits sides, rfl⟩
+
+/-- the cylinder's caps: cylinder.go appends the top circle unless `NoTop`, then the bottom circle unless `NoBottom`,
+    both built with `Sides: c.Sides` (extracted); the model's `cylinderTris` / `cylinderAdmissible` have that shape:
+    side strip, then each present cap's circle indices shifted by the vertex count so far (`Mesh.Append`'s shift
+    itself is mesh.go's, corresponded), and a panic iff a circle is built with fewer than 3 sides -/
+theorem cylinder_caps_from_source (sides : Nat) (noTop noBottom : Bool) :
+    Gen.PrimLoops.cylinderAppends = [("NoTop", "top"), ("NoBottom", "bottom")] ∧
+    cylinderTris sides noTop noBottom =
+      cylinderSideTris sides ++ (if noTop then [] else shift (cylinderSideNV sides) (circleTris sides)) ++
+        (if noBottom then [] else
+          shift (if noTop then cylinderSideNV sides else cylinderSideNV sides + circleNV sides) (circleTris sides)) ∧
+    cylinderAdmissible sides noTop noBottom = (Gen.PrimLoops.circle.admits [sides] || (noTop && noBottom)) :=
+  ⟨rfl, rfl, by rw [circle_admits]; rfl⟩
 
 /-! ## Closedness -/
 
@@ -78,6 +154,43 @@ theorem quadTris_eq_table : quadTris = unflat Gen.CubeTable.quadIndices := by de
 
 /-- the box built from six quads is closed once its 24 vertices are merged into the 8 corners -/
 theorem cubeQuads_closed_mod_merge : ClosedMod cubeQuadsPt cubeQuadsTris := by decide
+
+/-! ## Vertex-manifoldness and connectedness
+
+`Closed` is edge-manifoldness with consistent orientation; it does not exclude a surface pinched at a vertex (two
+umbrellas sharing their apex) or made of several components.  `VertexManifold` (the link of every vertex is ONE directed
+cycle) and `Connected` (`Model/SolidsTopo.lean`) do. -/
+
+/-- the welded box: one umbrella per vertex, and connected (complete table, kernel `decide`) -/
+theorem cubeWelded_vertexManifold_connected : VertexManifold cubeWeldedTris ∧ Connected cubeWeldedTris :=
+  ⟨cubeWelded_vm, cubeWelded_conn⟩
+
+/-- the six-quad box modulo its corner merge map: one umbrella per corner, and connected -/
+theorem cubeQuads_vertexManifold_connected_mod_merge :
+    VertexManifold (cubeQuadsTris.map (tmap cubeQuadsPt)) ∧ Connected (cubeQuadsTris.map (tmap cubeQuadsPt)) :=
+  ⟨cubeQuads_vm, cubeQuads_conn⟩
+
+/-- **the welded UV sphere is connected, all sizes**: every vertex id is reached from vertex 0 (the top pole) along
+    directed edges of the mesh (which are symmetric by `uvSphere_closed`) -/
+theorem uvSphere_connected {rows cols : Nat} (hR : 2 ≤ rows) (hC : 3 ≤ cols) {v : Nat} (hv : v < uvSphereNV rows cols) :
+    Relation.ReflTransGen (fun a b => (a, b) ∈ edges (uvSphereTris rows cols)) 0 v :=
+  uvSphere_reach hR hC hv
+
+example : Relation.ReflTransGen (fun a b => (a, b) ∈ edges (uvSphereTris 4 5)) 0 16 :=
+  uvSphere_connected (by decide) (by decide) (by decide)
+
+/-- NOT PROVED for all sizes (kept as the full statement; evaluated by the oracle `c18.holds.manifold` on the
+    implementation's meshes for every size ≤ 24 and sampled beyond): one umbrella per vertex of the welded UV sphere,
+    of the hemisphere, and of the unwelded sphere / capped cylinder modulo their merge maps -/
+def vertexManifold_full : Prop :=
+  (∀ rows cols, 2 ≤ rows → 3 ≤ cols → VertexManifold (uvSphereTris rows cols) ∧ VertexManifold (hemisphereTris rows cols) ∧
+    VertexManifold ((uvSphereUnweldedTris rows cols).map (tmap (uvUnweldedSrc rows cols)))) ∧
+  (∀ sides, 3 ≤ sides → VertexManifold ((cylinderTris sides false false).map (tmap (cylinderPt sides))))
+
+/-- instances of the full statement (not a substitute for it) -/
+theorem vertexManifold_partial : VertexManifold (uvSphereTris 2 3) ∧ VertexManifold (uvSphereTris 3 4) ∧
+    VertexManifold (hemisphereTris 3 4) ∧ VertexManifold ((cylinderTris 4 false false).map (tmap (cylinderPt 4))) := by
+  unfold VertexManifold Umbrella; decide +kernel
 
 /-! ## The rotated parts as the code builds them = the exact forms (over ℝ)
 
